@@ -24,6 +24,7 @@ def run(ctx, rep):
         check_pre(crate, rep, cfg)
         check_iterable(crate, rep, cfg)
         check_deleg(crate, rep, cfg)
+        check_round(crate, rep, cfg)
 
 
 def lossless(a, b):
@@ -265,3 +266,35 @@ def check_type_tests(crate, rep, cfg):
         called = {callee_def(t).rsplit("::", 1)[-1] for bb, t in ii[0].calls() if "value::Value" in callee_def(t)}
         ok = called == {"is_number", "is_f64"}
         rep.add("C17.TYPETEST", "C17.TYPETEST:is_integer:number-and-not-float", ok, ii[0].where(0), "`integer` is `number and not float` (so integer xor float iff number)" + ("" if ok else " — VIOLATED: %s" % sorted(called)))
+
+
+def check_round(crate, rep, cfg):
+    """C17.PRE — `round(precision=p)` scales by 10^p for every p != 0 (negative p rounds to tens, hundreds ..): the unscaled multiplier 1.0 is
+    chosen on exactly one edge, the true edge of `precision == 0`, and that test reads nothing but the precision."""
+    b = crate.one("filters::round")
+    rep.analysed(b)
+    ef = EdgeFacts(b, crate)
+    ones = [(bb, idx) for bb, idx, st in b.stmts() if idx != "t" and st.get("k") == "assign" and st["rv"]["k"] == "use" and st["rv"]["op"]["k"] == "const"
+            and st["rv"]["op"].get("ty") == "f64" and b.local_ty(st["pl"]["l"]) == "f64" and not st["pl"]["p"]]
+    powi = [bb for bb, t in b.calls() if callee_def(t).endswith("<impl f64>::powi")]
+    ok = len(ones) == 1 and len(powi) == 1
+    why = "%d constant multipliers, %d powi calls" % (len(ones), len(powi))
+    if ok:
+        ob = ones[0][0]
+        g = None
+        for sb in sorted(b.reachable):
+            if b.term(sb)["k"] != "switch" or not b.dominates(sb, ob) or sb == ob:
+                continue
+            for tgt, fl in ef.facts_for_switch(sb).items():
+                for f in fl:
+                    if f[0] == "cmp" and f[1] in ("Eq", "Ne") and f[3] == ("const", "0") and b.dominates(tgt, ob) and tgt != sb and \
+                            ((f[1] == "Eq" and f[4] is True) or (f[1] == "Ne" and f[4] is False)):
+                        g = (sb, tgt)
+        ok = g is not None
+        why = "1.0 is not chosen on the true edge of `precision == 0`"
+        if ok:
+            # the only predecessor of the constant's block is that edge (no `||` joining another condition)
+            ok = len(b.pred[g[1]]) == 1 and (g[1] == ob or (b.dominates(g[1], ob) and all(len(b.pred[x]) == 1 for x in [ob])))
+            why = "another condition also leads to the unscaled multiplier"
+    rep.add("C17.PRE", "C17.PRE:round:unscaled-only-for-precision-0", ok, b.where(ones[0][0]) if ones else b.where(0), "round uses the multiplier 1.0 only when precision == 0 and "
+            "10^precision otherwise" + ("" if ok else " — VIOLATED: " + why))
